@@ -324,3 +324,34 @@ def v_np_ptm3_symbolic(c, nf, nd, parts):
                 c.ensure("partitions_add_up_to_the_input_when_enough_requested",
                          c.implies(nmax <= parts, tot == m.ite(lab(i, j) >= 1, s, 0.0)))
                 c.ensure("partitions_add_up_to_no_more_than_the_input", tot <= s)
+
+
+@contract(PP + "np_ptm1", props=["C03"], name="small_grid", scenarios=[{"nf": 2, "nd": 1, "swells": 1}, {"nf": 2, "nd": 1, "swells": 2}], uses=[_W])
+def v_np_ptm1_symbolic(c, nf, nd, swells):
+    """2x2 grid, every spectrum, every label map, every wind/depth/age factor/cutoff: each bin of each
+    partition is the input density or zero, no bin in two partitions, requested count, sums"""
+    from engine.pyse.core import Sym
+
+    m = c.m
+    if not m.symbolic:
+        return
+    S = c.array("S", (Sym(nf), Sym(nd)), nonneg=True)
+    F = c.array("F", (Sym(nf),), sorted_inc=True, positive=True)
+    D = c.array("D", (Sym(nd),))
+    wspd, wdir, dpt = c.real("wspd", 0, 40), c.real("wdir", 0, 360), c.real("dpt", 1, 5000)
+    agefac, wscut = c.real("agefac", 0.5, 3), c.real("wscut", 0, 1)
+    out = c.call(S, S, F, D, wspd, wdir, dpt, agefac, wscut, swells, 100)
+    n_out = A.conc(out.shape_[0])
+    c.ensure_true("exactly_the_requested_number_of_partitions", n_out == swells + 1, f"{n_out} vs {swells + 1}")
+    for i in range(nf):
+        for j in range(nd):
+            s = S.get((Sym(i), Sym(j)))
+            tot = Sym(0.0)
+            nonzero = Sym(0)
+            for k in range(n_out):
+                v = out.get((Sym(k), Sym(i), Sym(j)))
+                c.ensure("each_bin_original_density_or_zero", m.or_(v == s, v == 0))
+                tot = tot + v
+                nonzero = nonzero + m.ite(v != 0, Sym(1), Sym(0))
+            c.ensure("no_bin_in_two_partitions", nonzero <= 1)
+            c.ensure("partitions_add_up_to_no_more_than_the_input", tot <= s)
